@@ -1,4 +1,56 @@
-/-! native driver `C20` (stub; replaced by the area's real driver) -/
+import PPLV.CIface.Model
+/-! native driver `pplv_c20`: judges the `disp` events of the C20 harness journal against the model.
+
+Input (stdin), one event per line, other lines are ignored:
+  `disp <id> <entry point> <class> thrown=<0|1> ret=<r> hcalls=<n> hcode=<c> esc=<class|->`
+meaning: while `<entry point>` ran, an exception of the model class `<class>` was thrown under the
+wrapper (`thrown=1`); the wrapper returned `<r>`, the registered error handler had been called `<n>`
+times during the call, last with code `<c>`; `esc` names an exception that crossed the boundary.
+
+Verdict per event: `ok <id>` iff nothing escaped, the handler was called exactly once with
+`documentedCode class`, and that same code was returned; `skip <id>` when nothing was thrown;
+`MISMATCH <id> dispatch <detail>` otherwise. -/
+open PPLV.CIface
+
+def classOfString : String → Option ExcClass
+  | "badAlloc" => some .badAlloc | "invalidArgument" => some .invalidArgument
+  | "domainError" => some .domainError | "lengthError" => some .lengthError
+  | "outOfRange" => some .outOfRange | "logicError" => some .logicError
+  | "overflowError" => some .overflowError | "underflowError" => some .underflowError
+  | "rangeError" => some .rangeError | "runtimeError" => some .runtimeError
+  | "stdException" => some .stdException | "timeout" => some .timeout
+  | "detTimeout" => some .detTimeout | "unknown" => some .unknown
+  | _ => none
+
+def field (ws : List String) (key : String) : Option String :=
+  ws.findSome? fun w =>
+    match w.splitOn "=" with
+    | [k, v] => if k == key then some v else none
+    | _ => none
+
+def judge (ws : List String) : String :=
+  match ws with
+  | "disp" :: id :: ep :: cls :: rest =>
+    match classOfString cls, field rest "thrown", (field rest "ret").bind String.toInt?,
+          (field rest "hcalls").bind String.toInt?, (field rest "hcode").bind String.toInt?, field rest "esc" with
+    | some e, some thrown, some ret, some hcalls, some hcode, some esc =>
+      if thrown != "1" then s!"skip {id}"
+      else
+        let want := documentedCode e
+        if esc != "-" then s!"MISMATCH {id} dispatch {ep} class={cls} escaped={esc} expected_code={want}"
+        else if ret == want && hcalls == 1 && hcode == want then s!"ok {id}"
+        else s!"MISMATCH {id} dispatch {ep} class={cls} expected_code={want} ret={ret} hcalls={hcalls} hcode={hcode}"
+    | _, _, _, _, _, _ => s!"MISMATCH {id} parse malformed-event"
+  | _ => ""
+
+partial def loop (h : IO.FS.Stream) (out : IO.FS.Stream) : IO Unit := do
+  let line ← h.getLine
+  if line.isEmpty then return
+  let ws := (line.trimAscii.toString.splitOn " ").filter (· ≠ "")
+  let v := judge ws
+  if v ≠ "" then out.putStrLn v
+  loop h out
+
 def main (_args : List String) : IO UInt32 := do
-  IO.println "stub"
+  loop (← IO.getStdin) (← IO.getStdout)
   return 0
